@@ -36,6 +36,17 @@ fn numerals() -> Vec<String> {
     for s in ["9007199254740993", "9223372036854775807", "9223372036854775808", "10000000000000000000", "18446744073709551615", "18446744073709551616", "2.1234567890471892", "3.141592653589793238", "0.1234567890123456789"] {
         v.push(s.to_string());
     }
+    // whole numbers of 15..24 digits (powers of ten, all nines, a leading 2) and the edges of
+    // the 64-bit range: the lister must not route them through an integer type
+    for k in 15..=24usize {
+        v.push(format!("1{}", "0".repeat(k)));
+        v.push("9".repeat(k));
+        v.push(format!("2{}", "0".repeat(k)));
+        v.push(format!("1{}.5", "0".repeat(k)));
+    }
+    for s in ["18446744073709555712", "99999999999999983616", "36893488147419103232", "18446744073709551617", "9223372036854775809", "4611686018427387904"] {
+        v.push(s.to_string());
+    }
     let mut x: u64 = 12345;
     for _ in 0..400 {
         x = x.wrapping_mul(6364136223846793005).wrapping_add(1442695040888963407);
